@@ -95,6 +95,24 @@ def splice_fn(s, name, impl, spec):
         if len(ms) != 1:
             raise AnchorLost(f'{name}: ghost block anchor {anchor!r} matched {len(ms)} times')
         inserts.append((ms[0].start(), ptxt + '\n'))
+    for anchor, ptxt in spec.get('proofs_after', {}).items():
+        ms = [m for m in re.finditer(anchor, mbody)]
+        if len(ms) != 1:
+            raise AnchorLost(f'{name}: ghost block anchor {anchor!r} matched {len(ms)} times')
+        # end of the statement that starts at the anchor: the first `;` at bracket depth 0
+        k, depth = ms[0].start(), 0
+        while k < len(mbody):
+            ch = mbody[k]
+            if ch in '([{':
+                depth += 1
+            elif ch in ')]}':
+                depth -= 1
+            elif ch == ';' and depth == 0:
+                break
+            k += 1
+        if k >= len(mbody):
+            raise AnchorLost(f'{name}: statement end not found after {anchor!r}')
+        inserts.append((k + 1, '\n' + ptxt + '\n'))
     for off, txt in sorted(inserts, reverse=True):
         body = body[:off] + txt + body[off:]
     if spec.get('guard_to_if'):
